@@ -1,6 +1,6 @@
 (* C04 — CRT lift returns the unique representative and is inverse to reduction.  Statements only (CRT.v, CRTExec.v). *)
 From Coq Require Import ZArith Znumtheory List.
-From NTT Require Import CRT CRTExec CRTClosed.
+From NTT Require Import CRT CRTExec CRTClosed CRTRing CRTRingClosed.
 From NTT.gen Require Import Params.
 Import ListNotations.
 Local Open Scope Z_scope.
@@ -61,3 +61,21 @@ Theorem C04_lift_all_tables :
             forall j, (j < length (basis m rows))%nat -> x mod nth j (basis m rows) 1 = nth j rs 0.
 Proof. exact lift_tables. Qed.
 Print Assumptions C04_lift_all_tables.
+
+(* ring isomorphism: residue-wise +, -, * (any congruence-respecting operation) and the negacyclic product of whole polynomials, lifted
+   coefficient by coefficient, equal the same operation on the lifted big integers modulo Q -- for every generated table and every
+   number of moduli in use.  (ring_ok is the conjunction of the two statements; open forms: CRTRing.crt_ring_op, crt_negacyclic) *)
+Theorem C04_ring_isomorphism_all_tables :
+  forall (wb : Z * Z * list (Z * Z * Z * Z)), In wb [(w16, bits16, rows16); (w32, bits32, rows32); (w64, bits64, rows64)] ->
+  let '(w, bits, rows) := wb in forall m, basis m rows <> [] -> CRTRingClosed.ring_ok w (basis m rows).
+Proof. exact CRTRingClosed.ring_tables. Qed.
+Print Assumptions C04_ring_isomorphism_all_tables.
+Theorem C04_ring_op_open : forall w, 0 <= w -> forall ps, ps <> [] -> (forall i, (i < length ps)%nat -> 1 < nth i ps 1 < 2 ^ w) ->
+  (forall i j, (i < length ps)%nat -> (j < length ps)%nat -> i <> j -> rel_prime (nth i ps 1) (nth j ps 1)) ->
+  forall f ra rb xa xb, CRTRing.compat f -> CRTRing.canon ps ra -> CRTRing.canon ps rb -> poly2mpz_coef w ps ra = Some xa -> poly2mpz_coef w ps rb = Some xb ->
+  poly2mpz_coef w ps (CRTRing.rns_op ps f ra rb) = Some (f xa xb mod prod ps).
+Proof. exact CRTRing.crt_ring_op. Qed.
+Print Assumptions C04_ring_op_open.
+Theorem C04_compat_add_sub_mul : CRTRing.compat Z.add /\ CRTRing.compat Z.sub /\ CRTRing.compat Z.mul.
+Proof. exact (conj CRTRing.compat_add (conj CRTRing.compat_sub CRTRing.compat_mul)). Qed.
+Print Assumptions C04_compat_add_sub_mul.
